@@ -237,6 +237,17 @@ Proof. reflexivity. Qed.
 
 End Tok.
 
+(* ---------- for C07: no KEYWORD_STRING token text begins with two underscores ---------- *)
+Lemma keyword_no_dunder : forall cfg prev s, starts_dunder s = true -> m_keyword cfg prev s = MNone.
+Proof. intros cfg prev s H. unfold m_keyword. rewrite H. reflexivity. Qed.
+
+Lemma keyword_token_no_dunder : forall cfg prev s k n v, m_keyword cfg prev s = MTok k n v ->
+  starts_dunder s = false /\ starts_dunder (firstn n s) = false.
+Proof.
+  intros cfg prev s k n v H. destruct (starts_dunder s) eqn:E; [rewrite (keyword_no_dunder cfg prev s E) in H; discriminate|].
+  split; [reflexivity|]. destruct s as [|a [|b r]]; destruct n as [|[|n]]; try reflexivity. exact E.
+Qed.
+
 (* ---------- facts about the configuration of the current tree ---------- *)
 Lemma default_quotes_ok : forall names,
   quote_ok (default_cfg names) 39 = true /\ quote_ok (default_cfg names) 34 = true /\
@@ -279,4 +290,26 @@ Proof.
     change (m_ops (op_strs cfg) (95 :: 95 :: w)) with MNone. cbn iota.
     reflexivity. }
   rewrite M. reflexivity.
+Qed.
+
+(* in the current tree the only token that can start at "__" is a FUNC token (t_FUNC has no guard) *)
+Lemma dunder_token_is_func : forall names prev r k n v,
+  match_token (default_cfg names) prev (95 :: 95 :: r) = MTok k n v -> k = K_FUNC.
+Proof.
+  intros names prev r k n v. set (cfg := default_cfg names). unfold match_token.
+  change (m_dollar cfg (95 :: 95 :: r)) with MNone. cbn iota.
+  assert (N : m_number cfg prev (95 :: 95 :: r) = MNone).
+  { unfold m_number. destruct (negb _); [reflexivity|]. change (span (is_d cfg) (95 :: 95 :: r)) with O. reflexivity. }
+  rewrite N.
+  destruct (m_func cfg prev (95 :: 95 :: r)) as [|k' n' v'| |] eqn:F.
+  - change (m_keyword cfg prev (95 :: 95 :: r)) with MNone. cbn iota.
+    change (m_string cfg 39 false (95 :: 95 :: r)) with MNone. cbn iota.
+    change (m_string cfg 34 false (95 :: 95 :: r)) with MNone. cbn iota.
+    change (m_string cfg 96 true (95 :: 95 :: r)) with MNone. cbn iota.
+    change (m_ops (op_strs cfg) (95 :: 95 :: r)) with MNone. cbn iota.
+    change (m_literal cfg (95 :: 95 :: r)) with MNone. discriminate.
+  - intros [= <- _ _]. unfold m_func in F. destruct (_ && _); [|discriminate].
+    destruct (skipn _ _) as [|d ?]; [discriminate|]. destruct (d =? 40); [|discriminate]. injection F as <- _ _. reflexivity.
+  - discriminate.
+  - discriminate.
 Qed.
